@@ -83,7 +83,7 @@ fn build_read_workload(rng: &mut Rng, w: u64) -> Option<RWorkload> {
                 0..=4 => RStep::Read(*rng.pick(&[1usize, 7, 63, 100, 511, 700, 1023, 1024, 1025, 2000])),
                 5..=6 => RStep::Fill(rng.below(9) as u8),
                 7 => RStep::SeekTo(SeekFrom::Start(rng.below(len as u64 + 1))),
-                8 => RStep::SeekTo(SeekFrom::Current(-(rng.below(600) as i64))),
+                8 => RStep::SeekTo(SeekFrom::Current(if rng.chance(1, 2) { -(rng.below(600) as i64) } else { rng.below(1500) as i64 })),
                 _ => RStep::SeekTo(SeekFrom::End(-(rng.below(len as u64 + 1) as i64))),
             });
         }
@@ -520,8 +520,47 @@ enum WStep {
     Marker,
 }
 
+/// A version 3 file whose only stream ends a few sectors below sector 13952 (109 FAT
+/// sectors): the next 24 KB of writes make the file need its 110th FAT sector and with it
+/// the first DIFAT sector.
+fn difat_start_image() -> Option<Vec<u8>> {
+    let (file, shared) = MonFile::new(Vec::new());
+    let mut cf = CompoundFile::create_with_version(Version::V3, file).ok()?;
+    let mut s = cf.create_stream("/wide").ok()?;
+    // 109 FAT sectors + directory + stream = 13952 - 16
+    s.set_len((109 * 128 - 109 - 1 - 16) as u64 * 512).ok()?;
+    s.flush().ok()?;
+    drop(s);
+    cf.flush().ok()?;
+    let b = shared.bytes();
+    let n_fat = u32::from_le_bytes([b[44], b[45], b[46], b[47]]);
+    if n_fat != 109 {
+        return None;
+    }
+    Some(b)
+}
+
 fn build_write_script(rng: &mut Rng, w: u64) -> Vec<WStep> {
     let mut s = Vec::new();
+    if w % 16 == 8 {
+        // family D (version 3, on the start image of `difat_start_image`)
+        // (the 7 MB stream itself is left alone, so that the readbacks stay small)
+        s.push(WStep::OpenNew { slot: 0, path: "/t".into() });
+        for k in 0..16 {
+            if k == 5 {
+                // the sweep starts shortly before the write-back that needs the 110th FAT sector
+                s.push(WStep::Marker);
+            }
+            s.push(WStep::Write { slot: 0, len: 1024 });
+        }
+        s.push(WStep::FlushHandle { slot: 0 });
+        s.push(WStep::CloseHandle { slot: 0 });
+        s.push(WStep::OpenNew { slot: 0, path: "/u".into() });
+        s.push(WStep::Write { slot: 0, len: 500 });
+        s.push(WStep::CloseHandle { slot: 0 });
+        s.push(WStep::FlushFile);
+        return s;
+    }
     if w % 8 == 5 {
         // family C (version 4): the directory grows by a sector at the 33rd entry (counting
         // the root), which rewrites the header's directory-sector count; the sweep covers
@@ -588,6 +627,14 @@ fn build_write_script(rng: &mut Rng, w: u64) -> Vec<WStep> {
         s.push(WStep::CloseHandle { slot: 0 });
         s.push(WStep::Remove("/n4".into()));
         s.push(WStep::Remove("/big".into()));
+        // growth by set_len into sectors and mini sectors that the removed streams left dirty
+        s.push(WStep::OpenNew { slot: 1, path: "/z".into() });
+        s.push(WStep::SetLen { slot: 1, n: 5000 });
+        s.push(WStep::FlushHandle { slot: 1 });
+        s.push(WStep::SetLen { slot: 1, n: 200 });
+        s.push(WStep::SetLen { slot: 1, n: 1500 });
+        s.push(WStep::FlushHandle { slot: 1 });
+        s.push(WStep::CloseHandle { slot: 1 });
         s.push(WStep::OpenNew { slot: 0, path: "/after".into() });
         s.push(WStep::Write { slot: 0, len: 800 });
         s.push(WStep::FlushHandle { slot: 0 });
@@ -640,6 +687,9 @@ struct HState {
     /// the stream's real state became unknowable (a resize or structural call failed)
     tainted: bool,
     last_flush_failed: bool,
+    /// the taint comes from a failed set_len(n) and nothing else: the stream is then either
+    /// as it was (all accepted bytes) or resized to n (zeros gained) - `Some(n)`
+    failed_set_len: Option<u64>,
 }
 
 struct WState {
@@ -705,7 +755,7 @@ fn w_exec(st: &mut WState, step: &WStep, rep: &mut Report) -> Result<Result<(), 
                         }
                         st.shared.pause_faults(false);
                     }
-                    st.handles[*slot] = Some(HState { stream: s, path: path.clone(), pos: 0, content, tainted, last_flush_failed: false });
+                    st.handles[*slot] = Some(HState { stream: s, path: path.clone(), pos: 0, content, tainted, last_flush_failed: false, failed_set_len: None });
                     Ok(())
                 }
                 Err(e) => Err(e),
@@ -721,6 +771,7 @@ fn w_exec(st: &mut WState, step: &WStep, rep: &mut Report) -> Result<Result<(), 
                         if k == 0 || k > *len {
                             return Err(("write | wrong count".to_string(), format!("write({len}) returned {k}")));
                         }
+                        h.failed_set_len = None;
                         let end = h.pos as usize + k;
                         if h.content.len() < end {
                             h.content.resize(end, 0);
@@ -745,6 +796,7 @@ fn w_exec(st: &mut WState, step: &WStep, rep: &mut Report) -> Result<Result<(), 
                         if k == 0 || k > data.len() {
                             return Err(("write_vectored | wrong count".to_string(), format!("write_vectored({first} + {len}) returned {k}")));
                         }
+                        h.failed_set_len = None;
                         let end = h.pos as usize + k;
                         if h.content.len() < end {
                             h.content.resize(end, 0);
@@ -801,6 +853,13 @@ fn w_exec(st: &mut WState, step: &WStep, rep: &mut Report) -> Result<Result<(), 
                 Ok(()) => {
                     h.content.resize(*n as usize, 0);
                     h.pos = h.pos.min(*n);
+                    // a resize never changes the bytes it keeps, so after a set_len that
+                    // reports success the content is known again even if only an earlier
+                    // set_len attempt had made it uncertain: kept prefix, zeros gained
+                    if h.failed_set_len.take().is_some() {
+                        h.tainted = false;
+                        rep.count("set_len_recovered_content_known_again");
+                    }
                     // a set_len that reports success has resized the stream - also when an
                     // earlier attempt failed half-way (the content is then unknowable, the
                     // length is not)
@@ -819,6 +878,9 @@ fn w_exec(st: &mut WState, step: &WStep, rep: &mut Report) -> Result<Result<(), 
                     Ok(())
                 }
                 Err(e) => {
+                    if !h.tainted {
+                        h.failed_set_len = Some(*n);
+                    }
                     h.tainted = true;
                     Err(e)
                 }
@@ -868,6 +930,22 @@ fn w_exec(st: &mut WState, step: &WStep, rep: &mut Report) -> Result<Result<(), 
                                         rep.count("ok_metadata_reopen_checked");
                                     }
                                 }
+                            }
+                        }
+                        // after a set_len that failed and was not repeated, the stream is either as
+                        // before or resized: a fresh handle sees one of the two
+                        if let (Some(n), false) = (h.failed_set_len, st.structure_tainted) {
+                            let mut got = Vec::new();
+                            st.shared.pause_faults(true);
+                            let rb = st.cf.open_stream(&h.path).and_then(|mut f| f.read_to_end(&mut got));
+                            st.shared.pause_faults(false);
+                            if rb.is_ok() {
+                                let mut resized = h.content.clone();
+                                resized.resize(n as usize, 0);
+                                if got != h.content && got != resized {
+                                    return Err(("flush Ok | after a failed set_len the stream is neither as before nor resized".to_string(), format!("{}: {} bytes accepted, set_len({n}) failed and was not repeated, flush returned Ok; a fresh handle reads {} bytes{}", h.path, h.content.len(), got.len(), if got.len() == h.content.len() { format!(" ({})", engine::describe_bytes_diff(&h.content, &got)) } else { String::new() })));
+                                }
+                                rep.count("ok_flush_after_unrepeated_failed_set_len_checked");
                             }
                         }
                         // a successful flush means durable: a fresh handle reads back every
@@ -960,8 +1038,8 @@ fn w_exec(st: &mut WState, step: &WStep, rep: &mut Report) -> Result<Result<(), 
     Ok(r.map_err(|e| e.kind()))
 }
 
-fn w_run(script: &[WStep], version: Version, faults: Vec<Fault>, rep: &mut Report) -> Result<(u64, [u64; 3]), (String, String)> {
-    w_run_observed(script, version, faults, rep, None).map(|x| (x.0, x.2))
+fn w_run(script: &[WStep], version: Version, faults: Vec<Fault>, rep: &mut Report, start: Option<&[u8]>) -> Result<(u64, [u64; 3]), (String, String)> {
+    w_run_observed(script, version, faults, rep, None, start).map(|x| (x.0, x.2))
 }
 
 pub fn run_c13(ctx: &Ctx, rep: &mut Report) {
@@ -979,12 +1057,20 @@ pub fn run_c13(ctx: &Ctx, rep: &mut Report) {
         let mut rng = Rng::derive(ctx.seed, &[13, w]);
         let version = if w % 2 == 0 { Version::V3 } else { Version::V4 };
         let script = build_write_script(&mut rng, w);
+        // family D starts from a version 3 image that ends just below 109 FAT sectors
+        // (built once, fault-free; every run works on a copy)
+        let start_image: Option<Vec<u8>> = if w % 16 == 8 { difat_start_image() } else { None };
+        if w % 16 == 8 && start_image.is_none() {
+            rep.inconclusive(format!("write workload {w}: the start image could not be built"));
+            w += ctx.nshards;
+            continue;
+        }
         let witness = |extra: Vec<(&str, J)>| {
             let mut v = vec![("workload", J::Int(w as i128)), ("version", J::s(format!("{version:?}"))), ("script", J::Arr(script.iter().map(|s| J::s(format!("{:?}", s))).collect()))];
             v.extend(extra);
             ctx.witness(case, v)
         };
-        let (n, start_at) = match guard::catch(|| w_run(&script, version, vec![], rep)) {
+        let (n, start_at) = match guard::catch(|| w_run(&script, version, vec![], rep, start_image.as_deref())) {
             Ok(Ok(x)) => x,
             Ok(Err((sig, d))) => {
                 rep.finding(format!("fault-free | {sig}"), d, witness(vec![]));
@@ -1042,7 +1128,7 @@ pub fn run_c13(ctx: &Ctx, rep: &mut Report) {
                 let r = guard::catch(|| {
                     let (res, hit) = {
                         // run and report whether the fault fired at all
-                        let res = w_run_observed(&script, version, plan, rep, Some(n));
+                        let res = w_run_observed(&script, version, plan, rep, Some(n), start_image.as_deref());
                         match res {
                             Ok((n, hit, _)) => (Ok(n), hit),
                             Err(e) => (Err(e), true),
@@ -1084,15 +1170,17 @@ pub fn run_c13(ctx: &Ctx, rep: &mut Report) {
 }
 
 /// Like `w_run` but also says whether the armed fault fired.
-fn w_run_observed(script: &[WStep], version: Version, faults: Vec<Fault>, rep: &mut Report, fault_free_calls: Option<u64>) -> Result<(u64, bool, [u64; 3]), (String, String)> {
-    let (file, shared) = MonFile::new(Vec::new());
-    let cf = match version {
-        Version::V4 => OpenOptions::new().max_buffer_size(1024).create_with(file),
-        Version::V3 => CompoundFile::create_with_version(Version::V3, file).and_then(|c| OpenOptions::new().max_buffer_size(1024).open_with(c.into_inner())),
+fn w_run_observed(script: &[WStep], version: Version, faults: Vec<Fault>, rep: &mut Report, fault_free_calls: Option<u64>, start: Option<&[u8]>) -> Result<(u64, bool, [u64; 3]), (String, String)> {
+    let (file, shared) = MonFile::new(start.map(|b| b.to_vec()).unwrap_or_default());
+    let cf = match (start, version) {
+        (Some(_), _) => OpenOptions::new().max_buffer_size(1024).open_with(file),
+        (None, Version::V4) => OpenOptions::new().max_buffer_size(1024).create_with(file),
+        (None, Version::V3) => CompoundFile::create_with_version(Version::V3, file).and_then(|c| OpenOptions::new().max_buffer_size(1024).open_with(c.into_inner())),
     }
     .map_err(|e| ("create | failed without faults".to_string(), format!("{e}")))?;
     let base = shared.seq();
     let torn = faults.iter().any(|f| f.partial);
+    let no_set_len_retry = faults.first().map(|f| f.k % 2 == 1).unwrap_or(false);
     shared.arm(faults);
     // bounded progress in logical steps: with three attempts per step plus the harness's
     // own readbacks a run needs a small multiple of the fault-free call count; at fifty
@@ -1130,7 +1218,9 @@ fn w_run_observed(script: &[WStep], version: Version, faults: Vec<Fault>, rep: &
                 }
                 Err(_) => {
                     rep.count(&format!("api_errors.{}", w_step_name(step)));
-                    if attempts >= 3 {
+                    // a failed set_len is not repeated in the runs with an odd fault position
+                    let give_up = matches!(step, WStep::SetLen { .. }) && no_set_len_retry;
+                    if attempts >= 3 || give_up {
                         st.unrecovered = true;
                         break;
                     }
